@@ -106,122 +106,28 @@ theorem payload_unclaimed (n : String) (hn : n ∈ stackNames) : strContains Gen
   have := List.all_eq_true.mp layouts_claim.2.2.2.2.2.2 n hn
   simpa using this
 
-/-- IP / UDP / CoAP with the options in semantic mode: the stack parser accepts what the syntactic stack accepts, cuts
-    the same payload, and `PacketParser.unparse` of its fields (followed by the payload, as `decompress` passes them)
-    is the syntactic field list followed by the payload -/
-theorem unparse_semantic_stack {ip : ParserInst} {name : String} {layout : Layout} (hip : IsIp ip name layout)
-    (udp : ParserInst) (hu : udp.cls = "UDPParser") (hunp : udp.predict = false)
-    (cs : ParserInst) (hc : cs.cls = "CoAPParser") (hsem : cs.coapMode = .semantic)
-    (fuel : Nat) (b : ABuf) (hside : b.side = .left) (h1 h2 hs : Header)
-    (hp1 : runParser fuel ip b = .ok h1) (hp2 : runParser fuel udp (b.from_ h1.length) = .ok h2)
-    (hp3 : coapParse .syntactic fuel ((b.from_ h1.length).from_ h2.length) = .ok hs) (hwf : WfNibbles (pairs hs.fields)) :
-    ∃ hm : Header,
-      packetParse fuel [ip, udp, cs] b =
-        .ok ⟨.dw, h1.fields ++ h2.fields ++ hm.fields, ((b.from_ h1.length).from_ h2.length).from_ hs.length, b⟩ ∧
-      ∀ pl : ABuf, packetUnparse [ip, udp, cs] (pairs (h1.fields ++ h2.fields ++ hm.fields) ++ [(Gen.payloadId, pl)]) =
-        .ok (pairs (h1.fields ++ h2.fields ++ hs.fields) ++ [(Gen.payloadId, pl)]) := by
-  obtain ⟨hm, hpm, hlen, hun⟩ := coap_semantic_lossless fuel ((b.from_ h1.length).from_ h2.length) hside hs hp3 hwf
-  obtain ⟨c1, n1, u1, m1, d1u, d1c⟩ := ip_header hip fuel b h1 hp1
-  obtain ⟨c2, n2, u2⟩ := udp_header udp hu hunp fuel _ h2 hp2
-  have c3 := coapParse_claims fuel _ hm hpm
-  have mu := names_distinct.2.2.1
-  have mc := names_distinct.2.2.2.1
-  have duc := names_distinct.2.2.2.2.2.2.2.2
-  have n3 : parserNameOf cs = .ok Gen.coapHeaderId := by unfold parserNameOf; rw [hc]; rfl
-  have u3 : headerUnparse cs (pairs hm.fields) = .ok (pairs hs.fields) := by
-    unfold headerUnparse; rw [hc]; simp only [beq_self_eq_true, if_true, hsem]; exact hun
-  refine ⟨hm, ?_, ?_⟩
-  · unfold packetParse
-    simp only [packetParse.go, bind, Except.bind, hp1, hp2, coap_runParser cs hc, hsem, hpm, pure, Except.pure, List.nil_append, hlen,
-      List.append_assoc]
-  · intro pl
-    unfold packetUnparse
-    simp only [List.mapM_cons, List.mapM_nil, n1, n2, n3, bind, Except.bind, pure, Except.pure]
-    have hz : [ip, udp, cs].zip [name, Gen.udpHeaderId, Gen.coapHeaderId] =
-        ([(ip, name, pairs h1.fields), (udp, Gen.udpHeaderId, pairs h2.fields), (cs, Gen.coapHeaderId, pairs hm.fields)] :
-          List (ParserInst × String × Compute.Fields)).map (fun t => (t.1, t.2.1)) := rfl
-    rw [hz, unparseClaimed_segments]
-    · simp only [List.map_cons, List.map_nil, unparseSegs, u1, u2, u3, bind, Except.bind, pure, Except.pure, List.append_nil]
-      congr 1
-      simp only [pairs_append, List.append_assoc]
-      congr 3
-      -- nobody claims the payload; everything else is claimed by its parser
-      have a1 : ∀ x ∈ pairs h1.fields, (!([name, Gen.udpHeaderId, Gen.coapHeaderId].any (strContains x.1 ·))) = false := by
-        intro x hx; simp [pairs_contains c1 m1 x hx]
-      have a2 : ∀ x ∈ pairs h2.fields, (!([name, Gen.udpHeaderId, Gen.coapHeaderId].any (strContains x.1 ·))) = false := by
-        intro x hx; simp [pairs_contains c2 mu x hx]
-      have a3 : ∀ x ∈ pairs hm.fields, (!([name, Gen.udpHeaderId, Gen.coapHeaderId].any (strContains x.1 ·))) = false := by
-        intro x hx; simp [pairs_contains c3 mc x hx]
-      rw [List.filter_append, List.filter_append, List.filter_append, filter_const _ _ false a1, filter_const _ _ false a2, filter_const _ _ false a3]
-      simp [payload_unclaimed _ m1, payload_unclaimed _ mu, payload_unclaimed _ mc]
-    · intro t ht
-      simp only [List.mem_cons, List.not_mem_nil, or_false] at ht
-      simp only [pairs_append, List.append_assoc]
-      have sym : ∀ {x y : String}, (x == y) = false → (y == x) = false := by
-        intro x y h; rw [beq_eq_false_iff_ne] at h ⊢; exact fun e => h e.symm
-      rcases ht with rfl | rfl | rfl
-      · simp only
-        rw [List.filter_append, List.filter_append, List.filter_append, seg_filter c1 m1, seg_filter c2 m1, seg_filter c3 m1]
-        simp [payload_unclaimed _ m1, d1u, d1c]
-      · simp only
-        rw [List.filter_append, List.filter_append, List.filter_append, seg_filter c1 mu, seg_filter c2 mu, seg_filter c3 mu]
-        simp [payload_unclaimed _ mu, sym d1u, duc]
-      · simp only
-        rw [List.filter_append, List.filter_append, List.filter_append, seg_filter c1 mc, seg_filter c2 mc, seg_filter c3 mc]
-        simp [payload_unclaimed _ mc, sym d1c, sym duc]
-
-/-- the CoAP parser alone, options in semantic mode -/
-theorem unparse_semantic_single (cs : ParserInst) (hc : cs.cls = "CoAPParser") (hsem : cs.coapMode = .semantic)
-    (fuel : Nat) (b : ABuf) (hside : b.side = .left) (hs : Header)
-    (hp3 : coapParse .syntactic fuel b = .ok hs) (hwf : WfNibbles (pairs hs.fields)) :
-    ∃ hm : Header,
-      packetParse fuel [cs] b = .ok ⟨.dw, hm.fields, b.from_ hs.length, b⟩ ∧
-      ∀ pl : ABuf, packetUnparse [cs] (pairs hm.fields ++ [(Gen.payloadId, pl)]) = .ok (pairs hs.fields ++ [(Gen.payloadId, pl)]) := by
-  obtain ⟨hm, hpm, hlen, hun⟩ := coap_semantic_lossless fuel b hside hs hp3 hwf
-  have c3 := coapParse_claims fuel _ hm hpm
-  have mc := names_distinct.2.2.2.1
-  have n3 : parserNameOf cs = .ok Gen.coapHeaderId := by unfold parserNameOf; rw [hc]; rfl
-  have u3 : headerUnparse cs (pairs hm.fields) = .ok (pairs hs.fields) := by
-    unfold headerUnparse; rw [hc]; simp only [beq_self_eq_true, if_true, hsem]; exact hun
-  refine ⟨hm, ?_, ?_⟩
-  · unfold packetParse
-    simp only [packetParse.go, bind, Except.bind, coap_runParser cs hc, hsem, hpm, pure, Except.pure, List.nil_append, hlen]
-  · intro pl
-    unfold packetUnparse
-    simp only [List.mapM_cons, List.mapM_nil, n3, bind, Except.bind, pure, Except.pure]
-    have hz : [cs].zip [Gen.coapHeaderId] =
-        ([(cs, Gen.coapHeaderId, pairs hm.fields)] : List (ParserInst × String × Compute.Fields)).map (fun t => (t.1, t.2.1)) := rfl
-    rw [hz, unparseClaimed_segments]
-    · simp only [List.map_cons, List.map_nil, unparseSegs, u3, bind, Except.bind, pure, Except.pure, List.append_nil]
-      congr 2
-      have a3 : ∀ x ∈ pairs hm.fields, (!([Gen.coapHeaderId].any (strContains x.1 ·))) = false := by
-        intro x hx; simp [pairs_contains c3 mc x hx]
-      rw [List.filter_append, filter_const _ _ false a3]
-      simp [payload_unclaimed _ mc]
-    · intro t ht
-      simp only [List.mem_singleton] at ht
-      subst ht
-      simp only
-      rw [List.filter_append, seg_filter c3 mc]
-      simp [payload_unclaimed _ mc]
-
-/-! ### the dispatch on three segments, for arbitrary field lists (what the decompressor rebuilds) -/
+/-! ### the dispatch, for arbitrary field lists (what the decompressor rebuilds) -/
 
 def ClaimedBy (own : String) (l : Compute.Fields) : Prop := ∀ x ∈ l, claims own x.1 = true
+
+theorem claimedBy_pairs {own : String} {fs : List Field} (h : AllClaimed own fs) : ClaimedBy own (pairs fs) := by
+  intro x hx
+  obtain ⟨f, hf, rfl⟩ := List.mem_map.mp hx
+  exact h f hf
 
 theorem claimedBy_filter {own n : String} {l : Compute.Fields} (h : ClaimedBy own l) (hn : n ∈ stackNames) :
     l.filter (fun f => strContains f.1 n) = if (n == own) = true then l else [] :=
   filter_const _ _ _ (fun x hx => claims_contains (h x hx) hn)
 
-theorem claimedBy_unclaimed {own : String} {l : Compute.Fields} (h : ClaimedBy own l) (names : List String) (ho : own ∈ names) (hs : own ∈ stackNames) :
-    l.filter (fun f => !(names.any (strContains f.1 ·))) = [] := by
-  apply List.filter_eq_nil_iff.mpr
-  intro x hx
-  have := claims_contains (h x hx) hs
-  simp only [beq_self_eq_true] at this
-  intro hcon
-  have hany : names.any (strContains x.1 ·) = true := List.any_eq_true.mpr ⟨own, ho, this⟩
-  simp [hany] at hcon
+theorem claimedBy_filter_not {own n : String} {l : Compute.Fields} (h : ClaimedBy own l) (hn : n ∈ stackNames) :
+    l.filter (fun f => !strContains f.1 n) = if (n == own) = true then [] else l := by
+  have := filter_const (fun f : String × ABuf => !strContains f.1 n) l (!(n == own)) (fun x hx => by rw [claims_contains (h x hx) hn])
+  rw [this]
+  cases (n == own) <;> rfl
+
+theorem payload_filter (n : String) (hn : n ∈ stackNames) (pl : ABuf) :
+    [(Gen.payloadId, pl)].filter (fun f => strContains f.1 n) = [] ∧ [(Gen.payloadId, pl)].filter (fun f => !strContains f.1 n) = [(Gen.payloadId, pl)] := by
+  simp [payload_unclaimed n hn]
 
 /-- IP / UDP / CoAP: a field list made of a segment claimed by the IP parser, one claimed by UDP, one claimed by CoAP and
     the payload is un-parsed segment by segment; only the CoAP parser changes its segment -/
@@ -249,33 +155,91 @@ theorem packetUnparse_three {ip : ParserInst} {name : String} {layout : Layout} 
   have duc := names_distinct.2.2.2.2.2.2.2.2
   have sym : ∀ {x y : String}, (x == y) = false → (y == x) = false := by
     intro x y h; rw [beq_eq_false_iff_ne] at h ⊢; exact fun e => h e.symm
+  have hsegs : SegsOf (A ++ B ++ C ++ [(Gen.payloadId, pl)])
+      [(ip, name, A), (udp, Gen.udpHeaderId, B), (cs, Gen.coapHeaderId, C)] ∧
+      leftOver (A ++ B ++ C ++ [(Gen.payloadId, pl)]) [(ip, name, A), (udp, Gen.udpHeaderId, B), (cs, Gen.coapHeaderId, C)] = [(Gen.payloadId, pl)] := by
+    simp only [SegsOf, leftOver, List.filter_append, claimedBy_filter hA m1, claimedBy_filter hB m1, claimedBy_filter hC m1,
+      claimedBy_filter_not hA m1, claimedBy_filter_not hB m1, claimedBy_filter_not hC m1, (payload_filter name m1 pl).1, (payload_filter name m1 pl).2,
+      beq_self_eq_true, if_true, sym d1u, sym d1c, d1u, d1c, duc, Bool.false_eq_true, if_false, List.append_nil, List.nil_append, true_and, and_true,
+      claimedBy_filter hB mu, claimedBy_filter hC mu, claimedBy_filter_not hB mu, claimedBy_filter_not hC mu,
+      (payload_filter _ mu pl).1, (payload_filter _ mu pl).2, sym duc,
+      claimedBy_filter hC mc, claimedBy_filter_not hC mc, (payload_filter _ mc pl).1, (payload_filter _ mc pl).2, and_self]
   unfold packetUnparse
   simp only [List.mapM_cons, List.mapM_nil, n1, n2, n3, bind, Except.bind, pure, Except.pure]
   have hz : [ip, udp, cs].zip [name, Gen.udpHeaderId, Gen.coapHeaderId] =
       ([(ip, name, A), (udp, Gen.udpHeaderId, B), (cs, Gen.coapHeaderId, C)] : List (ParserInst × String × Compute.Fields)).map (fun t => (t.1, t.2.1)) := rfl
-  rw [hz, unparseClaimed_segments]
-  · simp only [List.map_cons, List.map_nil, unparseSegs, u1, u2, bind, Except.bind, pure, Except.pure, List.append_nil]
-    cases headerUnparse cs C with
-    | error e => rfl
-    | ok c =>
-      simp only [Except.map]
-      congr 1
-      simp only [List.append_assoc]
-      congr 3
-      rw [List.filter_append, List.filter_append, List.filter_append,
-        claimedBy_unclaimed hA _ (by simp) m1, claimedBy_unclaimed hB _ (by simp) mu, claimedBy_unclaimed hC _ (by simp) mc]
-      simp [payload_unclaimed _ m1, payload_unclaimed _ mu, payload_unclaimed _ mc]
-  · intro t ht
-    simp only [List.mem_cons, List.not_mem_nil, or_false] at ht
-    rcases ht with rfl | rfl | rfl
-    · simp only
-      rw [List.filter_append, List.filter_append, List.filter_append, claimedBy_filter hA m1, claimedBy_filter hB m1, claimedBy_filter hC m1]
-      simp [payload_unclaimed _ m1, d1u, d1c]
-    · simp only
-      rw [List.filter_append, List.filter_append, List.filter_append, claimedBy_filter hA mu, claimedBy_filter hB mu, claimedBy_filter hC mu]
-      simp [payload_unclaimed _ mu, sym d1u, duc]
-    · simp only
-      rw [List.filter_append, List.filter_append, List.filter_append, claimedBy_filter hA mc, claimedBy_filter hB mc, claimedBy_filter hC mc]
-      simp [payload_unclaimed _ mc, sym d1c, sym duc]
+  rw [hz, unparseClaimed_segments _ _ hsegs.1, hsegs.2]
+  simp only [List.map_cons, List.map_nil, unparseSegs, u1, u2, bind, Except.bind, pure, Except.pure, List.append_nil]
+  cases headerUnparse cs C with
+  | error e => rfl
+  | ok c => simp [Except.map, List.append_assoc]
+
+/-- the CoAP parser alone -/
+theorem packetUnparse_one (cs : ParserInst) (hc : cs.cls = "CoAPParser") (C : Compute.Fields) (pl : ABuf) (hC : ClaimedBy Gen.coapHeaderId C) :
+    packetUnparse [cs] (C ++ [(Gen.payloadId, pl)]) = (headerUnparse cs C).map (fun c => c ++ [(Gen.payloadId, pl)]) := by
+  have n3 : parserNameOf cs = .ok Gen.coapHeaderId := by unfold parserNameOf; rw [hc]; rfl
+  have mc := names_distinct.2.2.2.1
+  have hsegs : SegsOf (C ++ [(Gen.payloadId, pl)]) [(cs, Gen.coapHeaderId, C)] ∧
+      leftOver (C ++ [(Gen.payloadId, pl)]) [(cs, Gen.coapHeaderId, C)] = [(Gen.payloadId, pl)] := by
+    simp only [SegsOf, leftOver, List.filter_append, claimedBy_filter hC mc, claimedBy_filter_not hC mc, (payload_filter _ mc pl).1,
+      (payload_filter _ mc pl).2, beq_self_eq_true, if_true, List.append_nil, List.nil_append, and_self]
+  unfold packetUnparse
+  simp only [List.mapM_cons, List.mapM_nil, n3, bind, Except.bind, pure, Except.pure]
+  have hz : [cs].zip [Gen.coapHeaderId] =
+      ([(cs, Gen.coapHeaderId, C)] : List (ParserInst × String × Compute.Fields)).map (fun t => (t.1, t.2.1)) := rfl
+  rw [hz, unparseClaimed_segments _ _ hsegs.1, hsegs.2]
+  simp only [List.map_cons, List.map_nil, unparseSegs, bind, Except.bind, pure, Except.pure, List.append_nil]
+  cases headerUnparse cs C with
+  | error e => rfl
+  | ok c => simp [Except.map]
+
+/-- IP / UDP / CoAP with the options in semantic mode: the stack parser accepts what the syntactic stack accepts, cuts
+    the same payload, and `PacketParser.unparse` of its fields (followed by the payload, as `decompress` passes them)
+    is the syntactic field list followed by the payload -/
+theorem unparse_semantic_stack {ip : ParserInst} {name : String} {layout : Layout} (hip : IsIp ip name layout)
+    (udp : ParserInst) (hu : udp.cls = "UDPParser") (hunp : udp.predict = false)
+    (cs : ParserInst) (hc : cs.cls = "CoAPParser") (hsem : cs.coapMode = .semantic)
+    (fuel : Nat) (b : ABuf) (hside : b.side = .left) (h1 h2 hs : Header)
+    (hp1 : runParser fuel ip b = .ok h1) (hp2 : runParser fuel udp (b.from_ h1.length) = .ok h2)
+    (hp3 : coapParse .syntactic fuel ((b.from_ h1.length).from_ h2.length) = .ok hs) (hwf : WfNibbles (pairs hs.fields)) :
+    ∃ hm : Header,
+      packetParse fuel [ip, udp, cs] b =
+        .ok ⟨.dw, h1.fields ++ h2.fields ++ hm.fields, ((b.from_ h1.length).from_ h2.length).from_ hs.length, b⟩ ∧
+      ∀ pl : ABuf, packetUnparse [ip, udp, cs] (pairs (h1.fields ++ h2.fields ++ hm.fields) ++ [(Gen.payloadId, pl)]) =
+        .ok (pairs (h1.fields ++ h2.fields ++ hs.fields) ++ [(Gen.payloadId, pl)]) := by
+  obtain ⟨hm, hpm, hlen, hun⟩ := coap_semantic_lossless fuel ((b.from_ h1.length).from_ h2.length) hside hs hp3 hwf
+  obtain ⟨c1, _, _, _, _, _⟩ := ip_header hip fuel b h1 hp1
+  obtain ⟨c2, _, _⟩ := udp_header udp hu hunp fuel _ h2 hp2
+  have c3 := coapParse_claims fuel _ hm hpm
+  have u3 : headerUnparse cs (pairs hm.fields) = .ok (pairs hs.fields) := by
+    unfold headerUnparse; rw [hc]; simp only [beq_self_eq_true, if_true, hsem]; exact hun
+  refine ⟨hm, ?_, ?_⟩
+  · unfold packetParse
+    simp only [packetParse.go, bind, Except.bind, hp1, hp2, coap_runParser cs hc, hsem, hpm, pure, Except.pure, List.nil_append, hlen,
+      List.append_assoc]
+  · intro pl
+    have := packetUnparse_three hip udp hu cs hc (pairs h1.fields) (pairs h2.fields) (pairs hm.fields) pl
+      (claimedBy_pairs c1) (claimedBy_pairs c2) (claimedBy_pairs c3)
+    simp only [pairs_append]
+    rw [this, u3]
+    rfl
+
+/-- the CoAP parser alone, options in semantic mode -/
+theorem unparse_semantic_single (cs : ParserInst) (hc : cs.cls = "CoAPParser") (hsem : cs.coapMode = .semantic)
+    (fuel : Nat) (b : ABuf) (hside : b.side = .left) (hs : Header)
+    (hp3 : coapParse .syntactic fuel b = .ok hs) (hwf : WfNibbles (pairs hs.fields)) :
+    ∃ hm : Header,
+      packetParse fuel [cs] b = .ok ⟨.dw, hm.fields, b.from_ hs.length, b⟩ ∧
+      ∀ pl : ABuf, packetUnparse [cs] (pairs hm.fields ++ [(Gen.payloadId, pl)]) = .ok (pairs hs.fields ++ [(Gen.payloadId, pl)]) := by
+  obtain ⟨hm, hpm, hlen, hun⟩ := coap_semantic_lossless fuel b hside hs hp3 hwf
+  have c3 := coapParse_claims fuel _ hm hpm
+  have u3 : headerUnparse cs (pairs hm.fields) = .ok (pairs hs.fields) := by
+    unfold headerUnparse; rw [hc]; simp only [beq_self_eq_true, if_true, hsem]; exact hun
+  refine ⟨hm, ?_, ?_⟩
+  · unfold packetParse
+    simp only [packetParse.go, bind, Except.bind, coap_runParser cs hc, hsem, hpm, pure, Except.pure, List.nil_append, hlen]
+  · intro pl
+    rw [packetUnparse_one cs hc (pairs hm.fields) pl (claimedBy_pairs c3), u3]
+    rfl
 
 end Schc
